@@ -109,6 +109,47 @@ func (c *Check) Undecided(rule, construct string, fn *ssa.Function, detail strin
 	c.add(o)
 }
 
+// Failing counts the obligations that are not discharged.
+func (c *Check) Failing() int {
+	n := 0
+	for _, o := range c.Obls {
+		if o.Status != Discharged {
+			n++
+		}
+	}
+	return n
+}
+
+// MergeDischarged replaces every undischarged obligation of c by the obligation of other that has the same rule and
+// construct when that one is discharged. Obligations of other without a counterpart are ignored; so are constructs that
+// occur more than once in either check (ambiguous key).
+func (c *Check) MergeDischarged(other *Check, how string) {
+	key := func(o *Obligation) string { return o.Rule + "\x00" + o.Construct }
+	cnt := map[string]int{}
+	for _, o := range c.Obls {
+		cnt[key(o)]++
+	}
+	oth := map[string]*Obligation{}
+	ocnt := map[string]int{}
+	for _, o := range other.Obls {
+		oth[key(o)] = o
+		ocnt[key(o)]++
+	}
+	for i, o := range c.Obls {
+		if o.Status == Discharged || cnt[key(o)] != 1 || ocnt[key(o)] != 1 {
+			continue
+		}
+		if o2 := oth[key(o)]; o2 != nil && o2.Status == Discharged {
+			n := *o2
+			n.Detail = n.Detail + " (" + how + ")"
+			c.Obls[i] = &n
+		}
+	}
+	for f := range other.funcs {
+		c.funcs[f] = true
+	}
+}
+
 // Require is a convenience: discharged when cond, else violated.
 func (c *Check) Require(cond bool, rule, construct string, fn *ssa.Function, pos string, examined int, okDetail, failDetail string) bool {
 	if cond {
